@@ -79,6 +79,9 @@ class StructureMetaType(MetaType):
         ):
             # Shortcut for single char/bytes type
             return type.__call__(cls, *args, **kwargs)
+        # The fields of anonymous structure members can be given by keyword as well, they are assigned afterwards
+        folded = {name: kwargs.pop(name) for name in list(kwargs) if name not in cls.lookup and name in cls.fields}
+
         if not args and not kwargs:
             obj = type.__call__(cls)
             object.__setattr__(obj, "_values", {})
@@ -91,6 +94,10 @@ class StructureMetaType(MetaType):
         for name, (default, type_) in cls.__shared_defaults__.items():
             if obj.__dict__.get(name) is default:
                 object.__setattr__(obj, name, type_.__default__())
+
+        for name, value in folded.items():
+            if value is not None:
+                setattr(obj, name, value)
 
         return obj
 
@@ -462,7 +469,14 @@ class UnionMetaType(StructureMetaType):
             # User (partial) initialization, rebuild the union
             # First user-provided field is the one used to rebuild the union
             arg_fields = (field._name for _, field in zip(args, cls.__fields__))
-            kwarg_fields = (name for name in kwargs if name in cls.lookup)
+            # (a field of an anonymous structure member stands for that member)
+            folded = {
+                name: field._name
+                for field in cls.__fields__
+                if field.name is None and isinstance(field.type, StructureMetaType)
+                for name in field.type.fields
+            }
+            kwarg_fields = (name if name in cls.lookup else folded[name] for name in kwargs if name in cls.fields)
             if (first_field := next(chain(arg_fields, kwarg_fields), None)) is not None:
                 obj._rebuild(first_field)
         elif not args and not kwargs:
